@@ -8,6 +8,7 @@
 Each clause is a necessary condition of the round trip; equality of values is not decided.
 """
 from .. import roundtrip
+from . import c07, c08
 
 
 def run(ctx):
@@ -31,7 +32,37 @@ def run(ctx):
     roundtrip.follow_bytes(r2, lexpr, {0x20, 0x29}, "default printer")
     r3 = ctx.rule("R-NUM-ALPHABET", "radix-10 number reader accepts the continuation bytes of printed numbers")
     roundtrip.number_alphabet(r3, lexpr)
+    serde = db.crate("serde_lexpr")
+    c07.writeall(ctx, lexpr, serde)
+    peculiar(ctx, lexpr)
     r4 = ctx.rule("R-CHAR-R6RS", "printable characters in #\\c syntax are read back as themselves (95 characters)")
     n = roundtrip.printable_chars(r4, lexpr, "r6rs")
     if n is not None:
         r4.floor("printable", n)
+
+
+SIGN_SUBSEQUENT = sorted(set(range(ord("a"), ord("z") + 1)) | set(range(ord("A"), ord("Z") + 1)) |
+                         {ord(c) for c in "!$%&*/:<=>?^_~+-@"})
+
+
+def peculiar(ctx, lexpr):
+    """R7RS <peculiar identifier>: an explicit sign followed by a <sign subsequent> (<initial>, a sign, or @) starts
+    a symbol, not a number.  The printer writes such names verbatim, so the reader must take them as symbols."""
+    r = ctx.rule("R-PECULIAR", "a token `+c` / `-c` with c a <sign subsequent> character is read as a symbol")
+    pt = lexpr.fn("parse::Parser::<R>::parse_token")
+    if pt is None:
+        r.anchor_missing("parse_token")
+        return
+    n = 0
+    for sign in (0x2D, 0x2B):
+        for c in SIGN_SUBSEQUENT:
+            kinds, _ = c08._token_kinds(lexpr, pt, [sign, c, 0x20], {"keyword_syntaxes": 4, "racket_hash_percent_symbols": 0,
+                                                                     "leading_digit_symbols": 0})
+            n += 1
+            if kinds == {"Symbol"}:
+                r.ok("`%s%s` is a symbol" % (chr(sign), chr(c)), pt)
+            else:
+                r.violation("lexpr::parse::is_sign_subsequent", "peculiar:%s%s" % (chr(sign), chr(c)),
+                            "the name `%s%s...` is printed verbatim but a token starting with `%s%s` is read as %s"
+                            % (chr(sign), chr(c), chr(sign), chr(c), sorted(kinds)), pt.loc())
+    r.floor("cases", n)
